@@ -404,7 +404,8 @@ def netBlock (e : Env) (scheme netloc0 : Str) : R (Str × Option NetPre) :=
           | some pt => host ++ [58] ++ natToStr pt
         pure (netloc, some { rawHost := some rawHost, explicitPort := np.port, rawUser := none, rawPassword := none })
       else
-        let ru := requoteOpt e np.user
+        -- `(REQUOTER(username) or None)`: a user that requotes to "" is no user (commit 2fdb38c)
+        let ru := (requoteOpt e np.user).bind (fun s => if s.isEmpty then none else some s)
         let rp := requoteOpt e np.password
         let netloc := makeNetloc (q e Gen.QUOTER) ru rp (some host) np.port false
         pure (netloc, some { rawHost := some rawHost, explicitPort := np.port, rawUser := ru, rawPassword := rp })
@@ -1438,7 +1439,7 @@ def netRest (e : Env) (scheme netloc0 : Str) (np : NetlocParts) : R (Str × Opti
       | some pt => host ++ [58] ++ natToStr pt
     pure (netloc, some { rawHost := some rawHost, explicitPort := np.port, rawUser := none, rawPassword := none })
   else
-    let ru := requoteOpt e np.user
+    let ru := (requoteOpt e np.user).bind (fun s => if s.isEmpty then none else some s)
     let rp := requoteOpt e np.password
     let netloc := makeNetloc (q e Gen.QUOTER) ru rp (some host) np.port false
     pure (netloc, some { rawHost := some rawHost, explicitPort := np.port, rawUser := ru, rawPassword := rp })
@@ -1498,9 +1499,13 @@ theorem netBlock_authority (e : Env) (scheme : Str) {user pw : Option Str} {h : 
     | some w =>
       simp only [Option.isNone_some, Option.isNone_none, Bool.false_and, Bool.false_eq_true, if_false]
       rw [requoteOpt_user (fun s hs => hu.pw s hs)]
-      simp only [requoteOpt, Option.map_none, authText, makeNetloc_qf (q e Gen.QUOTER) id]
+      simp only [requoteOpt, Option.map_none, Option.bind_none, authText, makeNetloc_qf (q e Gen.QUOTER) id]
   | some u =>
-    have hru : requoteOpt e (some u) = some u := requoteOpt_user (fun s hs => (hu.user s hs).2)
+    have hru : (requoteOpt e (some u)).bind (fun s => if s.isEmpty then none else some s) = some u := by
+      rw [requoteOpt_user (fun s hs => (hu.user s hs).2)]
+      cases u with
+      | nil => exact absurd rfl (hu.user [] rfl).1
+      | cons _ _ => rfl
     have hrp : requoteOpt e pw = pw := requoteOpt_user (fun s hs => hu.pw s hs)
     simp only [Option.isNone_some, Bool.and_false, Bool.false_eq_true, if_false, hru, hrp, authText,
       makeNetloc_qf (q e Gen.QUOTER) id]
